@@ -7,6 +7,7 @@
 package c02
 
 import (
+	"bufio"
 	"bytes"
 	"fmt"
 	"io"
@@ -312,23 +313,47 @@ func TestFrameHelpers(t *testing.T) {
 		}
 		unmask := api >= 4
 		copying := api == 0 || api == 1 || api == 4
+		seed := rapid.Int64().Draw(t, "randSeed")
+		// None of the helpers consults the incoming Masked flag: they XOR
+		// f.Payload with the key (Mask* helpers) resp. with Header.Mask
+		// (Unmask* helpers) whatever the header said before.
 		variant := "plain"
 		if unmask {
-			// Frame as received: Masked with key. Rarely an unmasked frame
-			// (zero key): the XOR with the header's key is then the identity.
-			if rapid.IntRange(0, 9).Draw(t, "unmaskedInput") == 0 {
+			switch k := rapid.IntRange(0, 9).Draw(t, "unmaskInput"); {
+			case k == 0:
+				// unmasked frame, zero key: the XOR is the identity
 				variant = "unmasked-input"
 				key = [4]byte{}
-			} else {
+			case k == 1:
+				// header carries a key but says Masked=false
+				variant = "masked-flag-clear"
+				hdr.Mask = key
+			default:
 				hdr.Masked = true
 				hdr.Mask = key
 			}
-		} else if rapid.IntRange(0, 4).Draw(t, "staleMask") == 0 {
-			// Unmasked frame whose Mask field still holds an old key.
-			variant = "stale-mask-field"
-			hdr.Mask = gen.Key(t, "stale")
+		} else {
+			switch k := rapid.IntRange(0, 9).Draw(t, "maskInput"); {
+			case k < 2:
+				// Unmasked frame whose Mask field still holds an old key.
+				variant = "stale-mask-field"
+				hdr.Mask = gen.Key(t, "stale")
+			case k < 5:
+				// Frame that is already masked with the very key that is used
+				// now: masking again XORs again (and restores the plain bytes).
+				variant = "already-masked-same-key"
+				hdr.Masked = true
+				hdr.Mask = key
+				if api == 0 || api == 2 {
+					rand.Seed(seed)
+					hdr.Mask = ws.NewMask() // the key the helper will draw after the same Seed
+				}
+			case k == 5:
+				variant = "already-masked-other-key"
+				hdr.Masked = true
+				hdr.Mask = gen.Key(t, "other")
+			}
 		}
-		seed := rapid.Int64().Draw(t, "randSeed")
 		hx.Eval()
 		hx.Class(fmt.Sprintf("frame/%s/%s", apiNames[api], variant))
 		hx.Class(fmt.Sprintf("frame/%s/headerLength=%s", apiNames[api], lenMode))
@@ -363,6 +388,9 @@ func TestFrameHelpers(t *testing.T) {
 		} else {
 			if api == 0 || api == 2 {
 				used = out.Header.Mask // random key: visible only here
+				if variant == "already-masked-same-key" {
+					hx.Class(fmt.Sprintf("frame/%s/already-masked-same-key/key-predicted=%v", apiNames[api], used == hdr.Mask))
+				}
 			}
 			wantHdr.Masked = true
 			wantHdr.Mask = used
@@ -563,6 +591,94 @@ func TestCipherReader(t *testing.T) {
 	})
 }
 
+// readN reads exactly k bytes (or to the end) from r.
+func readN(t *rapid.T, r io.Reader, k int) []byte {
+	out := make([]byte, 0, k)
+	for tries := 0; len(out) < k; tries++ {
+		if tries > 4*k+8 {
+			t.Fatalf("reader makes no progress")
+		}
+		buf := make([]byte, k-len(out))
+		n, err := r.Read(buf)
+		out = append(out, buf[:n]...)
+		if err != nil {
+			break
+		}
+	}
+	return out
+}
+
+// The source of a CipherReader is any io.Reader: bytes.Reader, bufio.Reader,
+// and another CipherReader that has already delivered k bytes (double masking,
+// unmask-then-remask). The outer reader's output is the XOR of what its source
+// yields from the moment it was attached, starting at offset 0.
+func TestCipherReaderSourceKinds(t *testing.T) {
+	hx.Check(t, 8, func(t *rapid.T) {
+		n := drawLen(t, "len")
+		if n > 5000 {
+			n = n % 5000
+		}
+		key := gen.Key(t, "key")
+		data := pattern(n, drawSeed(t))
+		chunks := gen.Chunks(t, "chunks")
+		bufs := drawBufSizes(t, "bufs")
+		kind := rapid.SampledFrom([]string{"bytes.Reader", "bufio.Reader", "CipherReader", "CipherReader", "CipherReader"}).Draw(t, "source")
+		viaReset := rapid.Bool().Draw(t, "viaReset")
+		hx.Eval()
+
+		var src io.Reader
+		want := ref.Mask(data, key, 0)
+		pre := 0
+		var innerKey [4]byte
+		switch kind {
+		case "bytes.Reader":
+			src = bytes.NewReader(append([]byte(nil), data...))
+		case "bufio.Reader":
+			s := tx.NewSrc(data, chunks)
+			s.EOFWithData = rapid.Bool().Draw(t, "eofWithData")
+			src = bufio.NewReaderSize(s, rapid.IntRange(16, 64).Draw(t, "bufioSize"))
+		case "CipherReader":
+			innerKey = gen.Key(t, "innerKey")
+			if rapid.IntRange(0, 3).Draw(t, "sameKey") == 0 {
+				innerKey = key
+			}
+			s := tx.NewSrc(data, chunks)
+			s.EOFWithData = rapid.Bool().Draw(t, "eofWithData")
+			inner := wsutil.NewCipherReader(s, innerKey)
+			pre = min(rapid.IntRange(0, 9).Draw(t, "readThroughInnerFirst"), n)
+			once := ref.Mask(data, innerKey, 0)
+			if got := readN(t, inner, pre); !bytes.Equal(got, once[:pre]) {
+				t.Fatalf("%s", diffMsg("inner CipherReader prefix differs from the reference", got, once[:pre]))
+			}
+			src = inner
+			want = ref.Mask(once[pre:], key, 0)
+		}
+		var cr *wsutil.CipherReader
+		if viaReset {
+			cr = wsutil.NewCipherReader(nil, [4]byte{0xde, 0xad, 0xbe, 0xef})
+			cr.Reset(src, key)
+		} else {
+			cr = wsutil.NewCipherReader(src, key)
+		}
+		got, err, calls := drain(t, cr, bufs, 2*n+16)
+		if err != io.EOF {
+			t.Fatalf("CipherReader over %s ended with %v", kind, err)
+		}
+		if !bytes.Equal(got, want) {
+			t.Fatalf("%s\nsource=%s key=%x innerKey=%x bytes read through the inner reader first=%d viaReset=%v", diffMsg("CipherReader output differs from the XOR of what its source yields", got, want), kind, key, innerKey, pre, viaReset)
+		}
+		hx.Class(fmt.Sprintf("reader-source/%s/viaReset=%v", kind, viaReset))
+		if kind == "CipherReader" {
+			hx.Class(fmt.Sprintf("reader-source/stacked/innerDelivered%%4=%d", pre%4))
+		}
+		if len(want) >= 8 && (calls >= 2 || pre%4 != 0) {
+			hx.NonTrivial(hx.Hash("reader-source", kind, n, pre, viaReset, fmt.Sprint(chunks), fmt.Sprint(bufs)), func() interface{} {
+				return map[string]interface{}{"api": "CipherReader over " + kind, "len": n, "key": fmt.Sprintf("%x", key), "inner_key": fmt.Sprintf("%x", innerKey), "inner_delivered_before": pre, "via_reset": viaReset}
+			})
+		}
+	})
+}
+
 // ---------------------------------------------------------------------------
 // wsutil.CipherWriter
 
@@ -650,6 +766,86 @@ func TestCipherWriter(t *testing.T) {
 			if err != io.EOF || !bytes.Equal(back, content) {
 				t.Fatalf("CipherReader over CipherWriter output with the same key does not give the input back (err=%v, %d of %d bytes, first diff %d)", err, len(back), n, firstDiff(back, content))
 			}
+		}
+	})
+}
+
+// The destination of a CipherWriter is any io.Writer: bytes.Buffer,
+// bufio.Writer, and another CipherWriter that has already passed k bytes on.
+func TestCipherWriterDestinationKinds(t *testing.T) {
+	hx.Check(t, 6, func(t *rapid.T) {
+		n := drawLen(t, "len")
+		if n > 5000 {
+			n = n % 5000
+		}
+		key := gen.Key(t, "key")
+		content := pattern(n, drawSeed(t))
+		caller := append([]byte(nil), content...)
+		pieces := gen.Split(t, "split", caller, 6)
+		kind := rapid.SampledFrom([]string{"bytes.Buffer", "bufio.Writer", "CipherWriter", "CipherWriter", "CipherWriter"}).Draw(t, "destination")
+		viaReset := rapid.Bool().Draw(t, "viaReset")
+		hx.Eval()
+
+		var sink bytes.Buffer
+		rec := tx.NewRec()
+		var dst io.Writer
+		var flush func() error
+		result := func() []byte { return sink.Bytes() }
+		want := ref.Mask(content, key, 0)
+		pre := 0
+		var innerKey [4]byte
+		switch kind {
+		case "bytes.Buffer":
+			dst = &sink
+		case "bufio.Writer":
+			bw := bufio.NewWriterSize(&sink, rapid.IntRange(16, 64).Draw(t, "bufioSize"))
+			dst, flush = bw, bw.Flush
+		case "CipherWriter":
+			innerKey = gen.Key(t, "innerKey")
+			if rapid.IntRange(0, 3).Draw(t, "sameKey") == 0 {
+				innerKey = key
+			}
+			inner := wsutil.NewCipherWriter(rec, innerKey)
+			pre = rapid.IntRange(0, 9).Draw(t, "writtenThroughInnerFirst")
+			head := pattern(pre, 0x5eed)
+			if k, err := inner.Write(head); k != pre || err != nil {
+				t.Fatalf("inner Write = (%d, %v)", k, err)
+			}
+			dst = inner
+			result = rec.Bytes
+			want = append(ref.Mask(head, innerKey, 0), ref.Mask(ref.Mask(content, key, 0), innerKey, int64(pre))...)
+		}
+		var cw *wsutil.CipherWriter
+		if viaReset {
+			cw = wsutil.NewCipherWriter(nil, [4]byte{0xde, 0xad, 0xbe, 0xef})
+			cw.Reset(dst, key)
+		} else {
+			cw = wsutil.NewCipherWriter(dst, key)
+		}
+		for _, p := range pieces {
+			if k, err := cw.Write(p); k != len(p) || err != nil {
+				t.Fatalf("CipherWriter.Write(%d bytes) to %s = (%d, %v)", len(p), kind, k, err)
+			}
+		}
+		if flush != nil {
+			if err := flush(); err != nil {
+				t.Fatalf("flush: %v", err)
+			}
+		}
+		if got := result(); !bytes.Equal(got, want) {
+			t.Fatalf("%s\ndestination=%s key=%x innerKey=%x bytes written through the inner writer first=%d viaReset=%v pieces=%v", diffMsg("bytes that reached the final destination differ from the reference", got, want), kind, key, innerKey, pre, viaReset, pieceLens(pieces))
+		}
+		if !bytes.Equal(caller, content) {
+			t.Fatalf("CipherWriter.Write modified the caller's bytes")
+		}
+		hx.Class(fmt.Sprintf("writer-destination/%s/viaReset=%v", kind, viaReset))
+		if kind == "CipherWriter" {
+			hx.Class(fmt.Sprintf("writer-destination/stacked/innerPassedOn%%4=%d", pre%4))
+		}
+		if n >= 8 && (len(pieces) >= 2 || pre%4 != 0) {
+			hx.NonTrivial(hx.Hash("writer-destination", kind, n, pre, viaReset, fmt.Sprint(pieceLens(pieces))), func() interface{} {
+				return map[string]interface{}{"api": "CipherWriter over " + kind, "len": n, "key": fmt.Sprintf("%x", key), "inner_key": fmt.Sprintf("%x", innerKey), "inner_passed_on_before": pre, "pieces": pieceLens(pieces)}
+			})
 		}
 	})
 }
